@@ -309,3 +309,61 @@ class BytesList(Shape):
             v = vals.get("%s[%d]" % (name, i))
             items.append({"t": "bytes", "hex": (v if isinstance(v, (bytes, bytearray)) else b"").hex()})
         return {"t": "list", "items": items}
+
+
+class Sync(Shape):
+    """queue / lock / event / barrier model (see extmodels.SSync)"""
+
+    def __init__(self, kind, **st):
+        self.kind, self.st = kind, st
+
+    def make(self, ctx, name):
+        from .extmodels import SSync
+        st = dict(self.st)
+        if self.kind == "queue":
+            st["items"] = list(st.get("items", []))
+        if self.kind == "lock":
+            st.setdefault("held", False)
+        if self.kind == "event":
+            st.setdefault("flag", False)
+        return SSync(self.kind, **st)
+
+    def concretize(self, vals, name, made):
+        return {"t": "sync", "kind": self.kind}
+
+
+class Handler(Shape):
+    """an unknown route handler: outcomes = list of ('return', Shape) | ('raise', cls, args) | ('echo',)"""
+
+    def __init__(self, tag, outcomes, name_attr="handler"):
+        self.tag, self.outcomes, self.name_attr = tag, outcomes, name_attr
+
+    def make(self, ctx, name):
+        from .extmodels import SCallable
+        outs = []
+        for i, o in enumerate(self.outcomes):
+            if o[0] == "return":
+                sh = o[1]
+                outs.append(("return", (lambda c, a, sh=sh, i=i: sh.make(c, "%s.out%d" % (name, i)))))
+            elif o[0] == "echo":
+                outs.append(("return", lambda c, a: a[0]))
+            else:
+                outs.append(o)
+        return SCallable(self.tag, outs, {"__name__": self.name_attr})
+
+    def concretize(self, vals, name, made):
+        return {"t": "handler", "tag": self.tag}
+
+
+class DictOf2(Shape):
+    """dict with arbitrary concrete (hashable) keys: {key: Shape}"""
+
+    def __init__(self, items):
+        self.items = items
+
+    def make(self, ctx, name):
+        return {k: sh.make(ctx, "%s[%r]" % (name, k)) for k, sh in self.items.items()}
+
+    def concretize(self, vals, name, made):
+        return {"t": "dict", "items": [[encode_concrete(k), sh.concretize(vals, "%s[%r]" % (name, k), None)]
+                                       for k, sh in self.items.items()]}
